@@ -1362,17 +1362,32 @@ def sc_c08(env, t, v, cfg):
     other = tg.build(t)._from_buffer(obj._buffer, obj._offset)
     read_ok(env, t, other, exp, "C08 a view rebuilt before the history reads the holder")
     handles = (obj, other)
+    curv = {p: rv for p, rt, rv in slots}  # what each slot currently refers to (plain-data form)
+    bound = {}  # slot path -> (type, object, value) of the existing object last bound to it
     for stepno, st in enumerate(cfg["history"]):
         actor = handles[stepno % 2]
         path, rt, rv = slots[(st[1] if len(st) > 1 else 0) % len(slots)]
         members = [rt[1]] if rt[0] == "ref" else list(rt[2])
         mt = members[(st[2] if len(st) > 2 else 0) % len(members)]
-        mcls = tg.build(mt)
         empty = len(st) > 3 and st[3] == "empty" and mt[0] == "array" and any(d is None for d in mt[2])
         g = V.Gen(0, 0 if empty else 2)  # "empty": a zero-length target (an object whose truth value is False)
         g.c = itertools.count(20 + 7 * stepno)
         mv = g.sample(mt)
-        what = f"C08 step {stepno} {st[0]}{' (zero-length target)' if empty else ''} at {path}"
+        same = len(st) > 3 and st[3] == "same" and curv.get(path) is not None
+        if same:
+            # plain data of exactly the shape and sizes of what the slot refers to now, other leaf values (M10-C10:
+            # such data must still become a NEW object; the object bound before keeps its value)
+            cur = curv[path]
+            if rt[0] == "uref":
+                mt = [m for m in members if tg.build(m).__name__ == cur[0]][0]
+                cur = cur[1]
+            mv = cur
+            for p2, lt2, x2 in V.leaves(mt, cur):
+                nv2 = fitting_value(lt2, x2, 1 + stepno % 2) if p2 else None
+                if nv2 is not None:
+                    mv = V.replace_at(mt, mv, p2, nv2)
+        mcls = tg.build(mt)
+        what = f"C08 step {stepno} {st[0]}{' (zero-length target)' if empty else ''}{' (data shaped like the current referent)' if same else ''} at {path}"
         if st[0] in ("bind_existing", "bind_uref_instance"):
             if st[0] == "bind_uref_instance" and rt[0] != "uref":
                 continue
@@ -1402,6 +1417,9 @@ def sc_c08(env, t, v, cfg):
                     env.check(V.same(V.readback(lt2, r), V.expected(lt2, nv2)), what + ": a write through the reference is visible through the original")
                     mv = V.replace_at(mt, mv, p2, nv2)
             exp = V.replace_at(t, exp, path, V.expected(mt, mv) if rt[0] == "ref" else (mcls.__name__, V.expected(mt, mv)))
+            curv[path] = mv if rt[0] == "ref" else (mcls.__name__, mv)
+            if st[0] == "bind_existing":
+                bound[path] = (mt, target, mv)
         elif st[0] in ("bind_value", "bind_foreign"):
             m = env.mark()
             if st[0] == "bind_value":
@@ -1423,6 +1441,10 @@ def sc_c08(env, t, v, cfg):
                         p2, lt2, x2 = lv[0]
                         V.set_at(mt, foreign, p2, other_scalar(lt2, x2, 1))
             exp = V.replace_at(t, exp, path, V.expected(mt, mv) if rt[0] == "ref" else (mcls.__name__, V.expected(mt, mv)))
+            curv[path] = mv if rt[0] == "ref" else (mcls.__name__, mv)
+            if path in bound:
+                bt, bobj, bv = bound.pop(path)
+                read_ok(env, bt, bobj, V.expected(bt, bv), what + ": the object the reference denoted before keeps its value")
         elif st[0] == "bind_null":
             V.set_at(t, actor, path, None)
             got = V.get_at(t, obj, path)
@@ -1433,6 +1455,10 @@ def sc_c08(env, t, v, cfg):
                 tid = xo.Int64._from_buffer(obj._buffer, slot_off + 8)
                 env.check(env.eq(tid, -1), what + ": member index of a null union reference is -1")
             exp = V.replace_at(t, exp, path, None)
+            curv[path] = None
+            if path in bound:
+                bt, bobj, bv = bound.pop(path)
+                read_ok(env, bt, bobj, V.expected(bt, bv), what + ": the object the reference denoted before keeps its value")
         elif st[0] == "grow":
             g_ = env.int(f"g{stepno}", 1, 2**40)
             obj._buffer.grow(g_)
